@@ -5,6 +5,7 @@ use vstd::prelude::*;
 use vstd::arithmetic::div_mod::*;
 use core::mem;
 verus! {
+//@include _shared/std_specs.rs
 //@include _shared/rb_prelude.rs
 //@include _shared/rb_fixed.rs
 //@include _shared/rb_bounded.rs
